@@ -21,12 +21,23 @@ import (
 
 var dictUniverse = []string{"", "a", "ab", "b", "ba", "é"}
 
+// thorough tier: two more terms (a longer one sharing a prefix, one above all others)
+var dictUniverseThorough = []string{"", "a", "ab", "b", "ba", "é", "abc", "zz~"}
+
 // DictCase: one term set (subset of the universe) in one postings-size pattern
 // and one segment provenance.
 type DictCase struct {
-	Set     int    `json:"set"`     // subset mask over dictUniverse
-	Pattern int    `json:"pattern"` // 0: every term in exactly one doc; 1: alternating 1 / 2-3 docs; 2: every term in 2 docs
-	Prov    string `json:"prov"`    // built | opened | merged1 | merged2
+	Wide    bool   `json:"wide,omitempty"` // thorough universe of 8 terms
+	Set     int    `json:"set"`            // subset mask over dictUniverse
+	Pattern int    `json:"pattern"`        // 0: every term in exactly one doc; 1: alternating 1 / 2-3 docs; 2: every term in 2 docs
+	Prov    string `json:"prov"`           // built | opened | merged1 | merged2
+}
+
+func universeOf(c DictCase) []string {
+	if c.Wide {
+		return dictUniverseThorough
+	}
+	return dictUniverse
 }
 
 func dictBatch(c DictCase) spec.Batch {
@@ -37,7 +48,7 @@ func dictBatch(c DictCase) spec.Batch {
 	}
 	toks := make([][]spec.Tok, n)
 	k := 0
-	for i, t := range dictUniverse {
+	for i, t := range universeOf(c) {
 		if c.Set&(1<<uint(i)) == 0 {
 			continue
 		}
@@ -211,7 +222,7 @@ func checkDictionary(t dictTarget, field string, auts []autSpec, a *run.Acc) str
 	if dict.Cardinality() != len(terms) {
 		return fmt.Sprintf("Cardinality() = %d, want %d (%q)", dict.Cardinality(), len(terms), terms)
 	}
-	for _, u := range append(append([]string{}, dictUniverse...), "zz") {
+	for _, u := range append(append([]string{}, dictUniverseThorough...), "zz") {
 		has, err := dict.Contains([]byte(u))
 		if err != nil {
 			return fmt.Sprintf("Contains(%q): %v", u, err)
@@ -276,13 +287,21 @@ func init() {
 		Level:       "exploration",
 		Rule:        "bounded-exhaustive: every subset of a 6-term universe (empty term, a, ab, b, ba, 2-byte UTF-8) as the term set of a field x 3 postings-size patterns (all single-document; alternating 1 / 2-3 documents; all 2 documents) x provenance {built, re-opened, merged once, merged twice} (merging turns single-document frequency-1 terms into single-hit dictionary entries, so the SEQUENCE of encodings met by the iterator's reused scratch list ranges over all patterns) x 25 automata (nil=match-all, exact(u) for every u and an absent term, 5 prefixes incl. a partial UTF-8 byte, 7 vellum regular expressions, 4 vellum Levenshtein distance-1 automata, never-matching) x every well-formed key range over 10 bounds (absent, equal to / between / below / above existing terms; start < end). Oracle: ascending byte order, exactly the accepted terms in range (acceptance decided independently by string functions, Go regexp and an edit-distance function), DictEntry.Count == postings size of that term, Contains for every term of the universe, Cardinality; fields without dictionary (absent field, synonym field) give empty results. Non-trivial = term set with >= 2 terms.",
 		Assumptions: batchAssumptions,
-		Bounds:      map[string]string{"quick": "all 64 term sets x 3 patterns x 4 provenances x 25 automata x 64 ranges", "thorough": "same (the space is enumerated completely in both tiers)"},
+		Bounds:      map[string]string{"quick": "all 64 term sets x 3 patterns x 4 provenances x 25 automata x 64 ranges", "thorough": "additionally all 256 subsets of an 8-term universe (adds a longer term sharing a prefix and a term above all others) x the same patterns, provenances, automata and ranges"},
 		New:         func() interface{} { return &DictCase{} },
 		Gen: func(tier string, emit func(interface{})) {
 			for _, prov := range []string{"built", "opened", "merged1", "merged2"} {
 				for pattern := 0; pattern < 3; pattern++ {
 					for set := 0; set < 1<<uint(len(dictUniverse)); set++ {
 						emit(DictCase{Set: set, Pattern: pattern, Prov: prov})
+					}
+					if tier == "thorough" {
+						for set := 0; set < 1<<uint(len(dictUniverseThorough)); set++ {
+							if set>>uint(len(dictUniverse)) == 0 {
+								continue // already covered by the 6-term universe
+							}
+							emit(DictCase{Wide: true, Set: set, Pattern: pattern, Prov: prov})
+						}
 					}
 				}
 			}
@@ -358,7 +377,7 @@ func init() {
 
 func termsOf(c DictCase) []string {
 	var rv []string
-	for i, t := range dictUniverse {
+	for i, t := range universeOf(c) {
 		if c.Set&(1<<uint(i)) != 0 {
 			rv = append(rv, t)
 		}
